@@ -15,11 +15,13 @@ package xatomic
 //@ func (*Pointer).Store
 //@   props C05 C13
 //@   binds x val
+//@   scope p val x
 //@   ensures [stores-the-argument|C05] x.p.v == val
 
 //@ func (*Pointer).Swap
 //@   props C05 C13
 //@   binds x val
+//@   scope p val x
 //@   ensures [stores-the-argument|C05] x.p.v == val
 
 //@ func (*Pointer).CompareAndSwap
